@@ -53,6 +53,9 @@ class SymProvider:
             CTX.cons.append(v <= vz(frac(hi)))
         return Sym(v)
 
+    def sampled_real(self, name, sampler):
+        return self.real(name)
+
     def reals(self, name, n, **kw):
         return [self.real("%s_%d" % (name, i), **kw) for i in range(n)]
 
